@@ -44,10 +44,32 @@ func corpus(t testing.TB) []string {
 			}
 		}
 	})
+	if len(sqlCorpus) >= 100 && !corpusExtended {
+		sqlCorpus = append(sqlCorpus, hostileSQL...)
+		corpusExtended = true
+	}
 	if len(sqlCorpus) < 100 {
 		t.Fatalf("testdata/sql_corpus.txt missing or too small (%d statements)", len(sqlCorpus))
 	}
 	return sqlCorpus
+}
+
+var corpusExtended bool
+
+// hand-written additions to the corpus: statements found by the thorough tier and relatives
+var hostileSQL = []string{
+	"SELECT * FROM f() OVER () x",
+	"SELECT * FROM table1, rank() OVER (ORDER BY id) r",
+	"SELECT RPAD('hi', -1, '.')",
+	"SELECT LPAD(title, -9223372036854775808, 'x') FROM table1",
+	"SELECT RPAD('hi', 9223372036854775807, '')",
+	"SELECT SUBSTRING(title, -1, -1), SUBSTRING(title, 9223372036854775807, 9223372036854775807) FROM table1",
+	"SELECT REPEAT('x', -1), REPEAT('x', 100000000000)",
+	"SELECT LEFT(title, -5), RIGHT(title, -5) FROM table1",
+	"SELECT SPLIT_PART('a,b', ',', 0), SPLIT_PART('a,b', ',', -1)",
+	"SELECT id FROM table1 LIMIT -1 OFFSET -1",
+	"SELECT CAST('x' AS INTEGER), CAST(1e308 AS INTEGER), CAST('' AS TIMESTAMP)",
+	"SELECT 1 / 0, 1 % 0, -9223372036854775807 - 2",
 }
 
 var tokRe = regexp.MustCompile(`[A-Za-z_][A-Za-z0-9_]*|@[A-Za-z0-9_]+|\$[0-9]+|[0-9]+(?:\.[0-9]+)?|'(?:[^']|'')*'|"[^"]*"|\s+|<=|>=|<>|!=|\|\||::|->>|->|.`)
@@ -260,6 +282,55 @@ var sqlParams = map[string]interface{}{
 	"param3": []byte{1, 2}, "ts": time.Unix(1700000000, 0), "param": 1, "p1": 1, "p2": "x", "param4": 2.5,
 }
 
+const (
+	kfF28 = "F28-sql-parser-window-fn-as-datasource"
+	kfF29 = "F29-sql-lpad-rpad-negative-length"
+)
+
+// knownBySignature: these two defects cannot be recognised from the SQL text without the parser itself; the class
+// is "the call panicked with exactly this root-cause signature" (counted like any other exclusion).
+func knownBySignature(r result) string {
+	switch {
+	case r.panicked && strings.Contains(r.pval, "is *sql.WindowFnExp, not *sql.FnCall"):
+		return kfF28
+	case r.panicked && strings.Contains(r.stack, "sql.(*padFn).Apply"):
+		return kfF29
+	}
+	return ""
+}
+
+func sqlProbes() []vk.Probe {
+	return []vk.Probe{
+		{ID: kfF28, Present: func() (bool, string) {
+			q := "SELECT * FROM f() OVER () x"
+			if r := run(func() { sql.ParseSQLString(q) }); r.panicked {
+				return true, fmt.Sprintf("sql.ParseSQLString(%q) panics: %s", q, r.pval)
+			}
+			return false, ""
+		}},
+		{ID: kfF29, Present: func() (bool, string) {
+			eng, err := newScratchEngine()
+			if err != nil {
+				return false, ""
+			}
+			defer eng.close()
+			q := "SELECT RPAD('hi', -1, '.')"
+			r := run(func() {
+				rd, err := eng.e.Query(context.Background(), nil, q, nil)
+				if err != nil {
+					return
+				}
+				defer rd.Close()
+				rd.Read(context.Background())
+			})
+			if r.panicked {
+				return true, fmt.Sprintf("%s panics: %s [%s]", q, r.pval, r.stack)
+			}
+			return false, ""
+		}},
+	}
+}
+
 var heavyRe = regexp.MustCompile(`(?i)RECURSIVE|GENERATE_SERIES|PG_SLEEP|SLEEP`)
 
 // TestSQLParseAndExec: mutated SQL text through ParseSQLString; what parses is
@@ -293,6 +364,11 @@ func TestSQLParseAndExec(t *testing.T) {
 			var perr error
 			r := runPure(func() { stmts, perr = sql.ParseSQLString(text) })
 			dump := map[string]any{"sql": text, "mutation": desc, "base": base}
+			if k := knownBySignature(r); k != "" && vk.Excluded(k) {
+				vk.CountExcluded(k)
+				c.Label("known-class-" + k)
+				continue
+			}
 			if m := r.verdict("sql.ParseSQLString", len(text)); m != "" {
 				c.Failf(rt, dump, "%s\nSQL: %.2000q", m, text)
 			}
@@ -347,6 +423,14 @@ func TestSQLParseAndExec(t *testing.T) {
 					}
 				})
 				cancel()
+				if k := knownBySignature(r); k != "" && vk.Excluded(k) {
+					vk.CountExcluded(k)
+					c.Label("known-class-" + k)
+					if tx != nil && tx.Closed() {
+						tx = nil
+					}
+					continue
+				}
 				if r.panicked {
 					c.Failf(rt, dump, "executing a statement that parsed PANICKED: %s [%s]\nSQL: %.2000q", r.pval, r.stack, text)
 				}
@@ -384,7 +468,7 @@ func FuzzParseSQL(f *testing.F) {
 			f.Add(s)
 		}
 	}
-	for _, s := range []string{"", ";", "SELECT", "SELECT (((((((((", "SELECT 'unterminated", "SELECT \x00", "SELECT 1 /* open", "SELECT x'0'", "SELECT 99999999999999999999999999", "INSERT INTO t VALUES (" + strings.Repeat("(", 500)} {
+	for _, s := range []string{"SELECT * FROM f() OVER () x", "", ";", "SELECT", "SELECT (((((((((", "SELECT 'unterminated", "SELECT \x00", "SELECT 1 /* open", "SELECT x'0'", "SELECT 99999999999999999999999999", "INSERT INTO t VALUES (" + strings.Repeat("(", 500)} {
 		f.Add(s)
 	}
 	f.Fuzz(func(t *testing.T, s string) {
@@ -392,6 +476,10 @@ func FuzzParseSQL(f *testing.F) {
 			return
 		}
 		r := runPure(func() { sql.ParseSQLString(s) })
+		if k := knownBySignature(r); k != "" && vk.Excluded(k) {
+			vk.CountExcluded(k)
+			return
+		}
 		if m := r.verdict("sql.ParseSQLString", len(s)); m != "" {
 			t.Fatalf("%s\nSQL: %q", m, s)
 		}
